@@ -364,3 +364,62 @@ class QueryExpressionPlaceholder(Contract):
 
     def frame_ok(self, I, inp, obj, name):
         return False
+
+
+@register
+class RegexFlagModifierKeepsParts(Contract):
+    """SigmaRegularExpressionFlagModifier.modify (i / m / s after re, possibly after expand): the result is a regular expression with the
+    PARTS of the given one - placeholders inserted by an earlier expand are still placeholders - and with the flag added to its flags"""
+    id = "C17.SigmaRegularExpressionFlagModifier.modify"
+    target = "sigma.modifiers:SigmaRegularExpressionFlagModifier.modify"
+    props = ("C17", "C03")
+    cases = ("i", "m", "s")
+    assumed = ["pattern of three parts text / placeholder / text; the set of flags it had before is symbolic-free (empty or one other flag)",
+               "a SigmaString built from text is abstract (its parts are a function of that text: no Placeholder objects, C17 / C04 contracts); re.compile accepts the pattern"]
+
+    def setup(self, E):
+        E.summaries["sigma.types:SigmaString"] = lambda I, so, a, k: SObj("NewSigmaString", {"s": [("parsed", a[0] if a else "")], "__str__": NativeFn("__str__", lambda I2, a2, k2: a[0] if a else "")})
+        E.summaries["sigma.types:SigmaRegularExpression.compile"] = lambda I, so, a, k: None
+
+    def args(self, I, case):
+        idx = I.E.index
+        F = idx.lookup("sigma.types:SigmaRegularExpressionFlag")
+        flag = ops.getattr_(I, ClassRef(F), {"i": "IGNORECASE", "m": "MULTILINE", "s": "DOTALL"}[case], None)
+        other = ops.getattr_(I, ClassRef(F), {"i": "MULTILINE", "m": "DOTALL", "s": "IGNORECASE"}[case], None)
+        ph = SObj(idx.lookup("sigma.types:Placeholder"), {"name": I.fresh("name", "str")})
+        parts = [I.fresh("pre", "str"), ph, I.fresh("post", "str")]
+        pat = SObj(idx.lookup("sigma.types:SigmaString"), {"s": list(parts), "original": I.fresh("orig", "str")}, lazy=True)
+        pat.fields["__str__"] = NativeFn("__str__", lambda I2, a, k: I2.fresh("flattened text (placeholders become %name%)", "str"))
+        val = SObj(idx.lookup("sigma.types:SigmaRegularExpression"), {"regexp": pat, "flags": {other}}, lazy=True)
+        cname = {"i": "SigmaRegularExpressionIgnoreCaseFlagModifier", "m": "SigmaRegularExpressionMultilineFlagModifier", "s": "SigmaRegularExpressionDotAllFlagModifier"}[case]
+        me = SObj(idx.lookup(f"sigma.modifiers:{cname}"), {}, lazy=True)
+        return {"self": me, "args": [val], "val": val, "parts": parts, "flag": flag, "other": other, "pat": pat}
+
+    def post(self, I, inp, r):
+        c = I.ctx
+        ok = isinstance(r, SObj) and getattr(r.cls, "name", None) == "SigmaRegularExpression"
+        c.require(ok, "a regular expression is returned")
+        if not ok:
+            return
+        rp = r.fields.get("regexp")
+        got = rp.fields.get("s") if isinstance(rp, SObj) else None
+        c.require(isinstance(got, list) and len(got) == 3 and all(a is b for a, b in zip(got, inp["parts"])), "the pattern keeps its parts: a placeholder stays a placeholder (it is not flattened to the text %name%)")
+        fl = r.fields.get("flags")
+        c.require(isinstance(fl, set) and fl == {inp["flag"], inp["other"]}, "flags: the ones it had plus the modifier's flag")
+
+    def frame_ok(self, I, inp, obj, name):
+        return obj is inp["val"] and name == "flags"
+
+    def candidates(self):
+        return ({"chain": f"re|expand|{fl}", "text": t} for fl in ("i", "m", "s", "i|m") for t in ("a%x%b", "%x%", "^%x%.*%y%$"))
+
+    def replay(self, values):
+        """the real modifier chain on a real detection item: the regular expression still holds Placeholder parts after the flag modifier"""
+        if "chain" not in values:
+            return None
+        from sigma.rule import SigmaDetectionItem
+        from sigma.types import Placeholder
+        item = SigmaDetectionItem.from_mapping("f|" + values["chain"], values["text"])
+        n = sum(isinstance(p, Placeholder) for v in item.value for p in v.regexp.s)
+        want = values["text"].count("%") // 2
+        return None if n == want else f"f|{values['chain']}: {values['text']!r} has {n} placeholder parts after the modifier chain, {want} expected (parts {[v.regexp.s for v in item.value]})"
